@@ -204,6 +204,30 @@ def sweep_names(quick):
                    "spec": {"parts": [{"vols": [{"name": vname, "dir": [3], "files": files}]}]}}
 
 
+VOLNAME_SETS = [["PIANO", "PIANO"], ["PIANO", "PIANO", "PIANO"], ["PIANO", "OTHER", "PIANO"], ["A", "A."], ["A B", "A  B"], ["V", "V 2", "V"],
+                ["", ""], ["#", "+"]]
+
+
+def sweep_volnames(quick):
+    """sibling VOLUMES with equal / nearly equal names (legal; the tool numbers them), holding samples with the SAME names
+    but different audio: every volume's samples must come out, none may land on another's -- judged by content only. One
+    and two partitions (the second partition repeats the names of the first)"""
+    for names in VOLNAME_SETS:
+        for nparts in (1, 2):
+            parts = []
+            for pi in range(nparts):
+                vols, sec = [], 3
+                for vi, vn in enumerate(names):
+                    files = []
+                    for k, nm in enumerate(("C3", "E3") if vi != 1 else ("C3", "E3", "G3")):
+                        n = 100 + 61 * vi + 7 * k + 500 * pi
+                        files.append({"name": nm, "n": n, "chain": [sec + 1 + k], "seq": 1 + k + 3 * vi + 10 * pi, "rate": [44100, 22050, 32000][(vi + k) % 3]})
+                    vols.append({"name": vn, "dir": [sec], "files": files})
+                    sec += 1 + len(files)
+                parts.append({"vols": vols})
+            yield {"sweep": "names", "family": "volnames", "spec": {"parts": parts}}
+
+
 def sweep_slots(quick):
     """the volume table is indexed by volume number and may have holes: every non-empty set of <=3 occupied slots out of
     {0,1,2,3,50,98,99} (thorough: <=4), volumes stored in ascending and in descending slot order"""
@@ -309,7 +333,7 @@ class Check(CheckBase):
             "sample id x file type x volume type; (sizes) every partition size 6..139 sectors (thorough ..399), alternately followed by a second partition; (slack) chains longer than the file needs x order x markers; (structure) partitions{1,2,3} x volumes{0,1,2} x files{0..3} x "
             "volume type x directory storage, L/R pair, non-sample siblings, trailing bytes; (pairs) all pairs of "
             "single deviations; (names) 13 families (covering all 41 characters) (incl. two / three distinct samples with one name) of names using the non-letter characters of the AKAI set (. # + - digits "
-            "blanks, 12 characters) x 4 volume names, judged by content only; (slots) every set of <=3 (thorough 4) occupied "
+            "blanks, 12 characters) x 5 volume names, and 8 sets of equal / nearly equal sibling VOLUME names holding same-named samples with different audio (one and two partitions), judged by content only; (slots) every set of <=3 (thorough 4) occupied "
             "volume-table slots out of {0,1,2,3,50,98,99} in both storage orders; (bigdir) volumes of 63..510 one-sector samples "
             "(around powers of two and the 340-entry capacity of a one-sector file table); (pairlen) equal-length L/R pairs of 1..12219 words (around the 2048-word block and the sector "
             "size), contiguous and interleaved chains; the header, structure, names and slots "
@@ -320,7 +344,7 @@ class Check(CheckBase):
 
     def shards(self):
         cases = []
-        for sw in (sweep_length, sweep_slack, sweep_sizes, sweep_header, sweep_structure, sweep_pairs, sweep_alloc, sweep_names, sweep_slots, sweep_bigdir, sweep_pairlen):
+        for sw in (sweep_length, sweep_slack, sweep_sizes, sweep_header, sweep_structure, sweep_pairs, sweep_alloc, sweep_names, sweep_volnames, sweep_slots, sweep_bigdir, sweep_pairlen):
             cases.extend(sw(self.quick))
         self._n = len(cases)
         return self.chunk(cases, 24)
